@@ -77,7 +77,15 @@ class Model:
             'file': Opaque('file'),
             'headerbytes': Opaque('headerbytes'),
         }
-        self.interp = Interp(program, graph, T, {'read.SgzReader': seeds}, param_axis=param_axis,
+        dim_ = dim
+
+        def p_axis(name, dim_=dim_):
+            # the trace ordinal of a 2D file lives on the crossline position of the blockshape
+            if dim_ == '2d' and name.split('@')[0] == 'index':
+                return 1
+            return param_axis(name)
+        self.p_axis = p_axis
+        self.interp = Interp(program, graph, T, {'read.SgzReader': seeds}, param_axis=p_axis,
                              primitives={'utils.pad': self._pad,
                                          'loader.SgzLoader._get_compressed_bytes': self._read,
                                          'utils.read_range_file': self._read_range,
@@ -140,7 +148,7 @@ class Model:
                 v = params[p]
                 env[p] = v(self) if callable(v) else v
                 continue
-            ax = param_axis(p)
+            ax = self.p_axis(p)
             if p in f.defaults and isinstance(f.defaults[p], ast.Constant) and f.defaults[p].value in (None, True, False):
                 env[p] = Opaque(p)       # optional flag / optional bound: left undecided, forks
             elif ax is not None and self.interp.bs[ax] is not None:
